@@ -357,6 +357,44 @@ func guardText(e errorExit) string {
 	for _, in := range e.inits {
 		parts = append(parts, "init:"+in)
 	}
+	// a membership test written as a scan — slices.ContainsFunc(seen, func(p T) bool { return p.k == key })
+	// or slices.Contains(seen, key) — states the same fact as `_, ok := set[key]; ok`
+	for _, a := range e.guards {
+		call, ok := ast.Unparen(a.E).(*ast.CallExpr)
+		if !ok || !a.Truth || a.Tag != nil || len(call.Args) != 2 {
+			continue
+		}
+		sel, isSel := call.Fun.(*ast.SelectorExpr)
+		if !isSel || (sel.Sel.Name != "ContainsFunc" && sel.Sel.Name != "Contains") || exprStr(sel.X) != "slices" {
+			continue
+		}
+		if sel.Sel.Name == "Contains" {
+			parts = append(parts, "init:set["+str(call.Args[1])+"]", "flag")
+			continue
+		}
+		if lit, isLit := call.Args[1].(*ast.FuncLit); isLit && len(lit.Body.List) == 1 && len(lit.Type.Params.List) == 1 && len(lit.Type.Params.List[0].Names) == 1 {
+			if ret, isRet := lit.Body.List[0].(*ast.ReturnStmt); isRet && len(ret.Results) == 1 {
+				if be, isBin := ast.Unparen(ret.Results[0]).(*ast.BinaryExpr); isBin && be.Op == token.EQL {
+					pname := lit.Type.Params.List[0].Names[0].Name
+					mentionsParam := func(x ast.Expr) bool {
+						m := false
+						ast.Inspect(x, func(n ast.Node) bool {
+							if id, isID := n.(*ast.Ident); isID && id.Name == pname {
+								m = true
+							}
+							return true
+						})
+						return m
+					}
+					key := be.Y
+					if mentionsParam(be.Y) && !mentionsParam(be.X) {
+						key = be.X
+					}
+					parts = append(parts, "init:set["+str(key)+"]", "flag")
+				}
+			}
+		}
+	}
 	return strings.Join(parts, " && ")
 }
 
@@ -476,7 +514,49 @@ func runC01(c *Ctx) {
 	}
 	// rule level
 	if sw, keys := keySwitch(prs, isKeyValue); sw == nil {
-		c.Undecided("C01-R1", "parseRuleStrict:key switch", prs.Decl.Pos(), "switch over node.Value not found")
+		// no switch over the key: the same table through comparisons. The accepted keys are the constants
+		// a node's Value is compared with by ==; an unknown key is rejected when an error exit stands under
+		// the negation of all of them (`!(k == a || k == b …)`, which is also what a look-up in a constant
+		// list is read as), or follows key tests whose accepting branches all `continue`.
+		isKeyVal2 := func(e ast.Expr) bool {
+			if isKeyValue(e) {
+				return true
+			}
+			// through a local holding the node: `key := nodes[i]; key.Value`
+			sel, ok := ast.Unparen(e).(*ast.SelectorExpr)
+			return ok && sel.Sel.Name == "Value" && strings.HasSuffix(typeQName(info.TypeOf(sel.X)), "yaml.v3.Node")
+		}
+		accepted := map[string]bool{}
+		ast.Inspect(prs.Decl.Body, func(nd ast.Node) bool {
+			if be, ok := nd.(*ast.BinaryExpr); ok && be.Op == token.EQL && isKeyVal2(be.X) {
+				if v, isC := constString(info, be.Y); isC {
+					accepted[v] = true
+				}
+			}
+			return true
+		})
+		if len(accepted) == 0 {
+			c.Undecided("C01-R1", "parseRuleStrict:key switch", prs.Decl.Pos(), "switch over node.Value not found")
+		} else {
+			for _, k := range sortedKeys(accepted) {
+				c.Check(ruleTags[k], "C01-R1", "rule key "+strq(k)+" exists in rulefmt.Rule", prs.Decl.Pos(), "known to Prometheus", "pint's strict parser accepts rule key "+strq(k)+" which Prometheus' Rule does not have")
+			}
+			okDef := false
+			for _, e := range errorExits(p, prs) {
+				neg := map[string]bool{}
+				for _, a := range e.guards {
+					if be, ok := ast.Unparen(a.E).(*ast.BinaryExpr); ok && a.Tag == nil && isKeyVal2(be.X) {
+						if v, isC := constString(info, be.Y); isC && ((be.Op == token.EQL && !a.Truth) || (be.Op == token.NEQ && a.Truth)) {
+							neg[v] = true
+						}
+					}
+				}
+				if len(neg) == len(accepted) {
+					okDef = true
+				}
+			}
+			c.Check(okDef, "C01-R1", "parseRuleStrict:unknown rule key rejected", prs.Decl.Pos(), "error under the negation of every accepted key", "an unknown rule key is not rejected in strict mode")
+		}
 	} else {
 		for _, k := range keys {
 			c.Check(ruleTags[k], "C01-R1", "rule key "+strq(k)+" exists in rulefmt.Rule", sw.Pos(), "known to Prometheus", "pint's strict parser accepts rule key "+strq(k)+" which Prometheus' Rule does not have")
@@ -487,6 +567,34 @@ func runC01(c *Ctx) {
 			for _, e := range errorExits(p, prs) {
 				if deflt.Pos() <= e.pos && e.pos <= deflt.End() {
 					okDef = true
+				}
+			}
+		}
+		if !okDef && deflt == nil {
+			// every accepted key `continue`s and the statement after the switch is the error exit
+			allContinue := len(sw.Body.List) > 0
+			for _, st := range sw.Body.List {
+				cc := st.(*ast.CaseClause)
+				if len(cc.Body) == 0 {
+					allContinue = false
+					continue
+				}
+				if b, isBr := cc.Body[len(cc.Body)-1].(*ast.BranchStmt); !isBr || b.Tok != token.CONTINUE {
+					allContinue = false
+				}
+			}
+			if allContinue {
+				pmS := parentMap(prs.Decl.Body)
+				if blk, isBlk := pmS[ast.Node(sw)].(*ast.BlockStmt); isBlk {
+					for i, st := range blk.List {
+						if st == ast.Stmt(sw) && i+1 < len(blk.List) {
+							for _, e := range errorExits(p, prs) {
+								if blk.List[i+1].Pos() <= e.pos && e.pos <= blk.List[i+1].End() {
+									okDef = true
+								}
+							}
+						}
+					}
 				}
 			}
 		}
@@ -605,6 +713,58 @@ func runC01(c *Ctx) {
 			if r.pred(guardText(e)) {
 				found = e.pos
 				break
+			}
+		}
+		if found == token.NoPos {
+			// the same test written as an early exit of the other case: `if !c { return ok }; return error`
+			// — an error exit that stands under nothing, right after a terminating `if` without else whose
+			// condition is the negation of the expected fact
+			pmR := parentMap(r.fn.Decl.Body)
+			for _, e := range exitCache[r.fn] {
+				if len(e.guards) != 0 || e.node == nil {
+					continue
+				}
+				var stmt ast.Node = e.node
+				for stmt != nil {
+					if _, isBlk := pmR[stmt].(*ast.BlockStmt); isBlk {
+						break
+					}
+					stmt = pmR[stmt]
+				}
+				blk, _ := pmR[stmt].(*ast.BlockStmt)
+				if blk == nil {
+					continue
+				}
+				for i, st := range blk.List {
+					if ast.Node(st) != stmt || i == 0 {
+						continue
+					}
+					prev, isIf := blk.List[i-1].(*ast.IfStmt)
+					if !isIf || prev.Else != nil || prev.Init != nil || len(prev.Body.List) == 0 {
+						continue
+					}
+					if _, isRet := prev.Body.List[len(prev.Body.List)-1].(*ast.ReturnStmt); !isRet {
+						continue
+					}
+					var facts []Atom
+					for _, a := range implied(prev.Cond, nil, false) {
+						switch x := ast.Unparen(a.E).(type) {
+						case *ast.UnaryExpr:
+							if x.Op == token.NOT {
+								continue // its operand is listed too
+							}
+						case *ast.BinaryExpr:
+							if x.Op == token.LAND || x.Op == token.LOR {
+								continue
+							}
+						}
+						facts = append(facts, a)
+					}
+					fake := errorExit{pos: e.pos, guards: facts, node: e.node}
+					if r.pred(guardText(fake)) {
+						found = e.pos
+					}
+				}
 			}
 		}
 		c.Check(found != token.NoPos, "C01-R2", "reason:"+r.prom, firstPos(found, r.fn.Decl.Pos()), "error exit in "+r.fn.Obj.Name()+" (Prometheus: "+r.why+")",
